@@ -48,7 +48,11 @@ import (
 )
 
 func init() {
-	props["C07"] = func(tier string, seed uint64, out *Out) { runBatchProp("C07", tier, seed, out) }
+	props["C07"] = func(tier string, seed uint64, out *Out) {
+		runBatchProp("C07", tier, seed, out)
+		// on the simulated cluster: a batch mixing a call with and a call without a context of its own
+		out.Line("%s", batchMixedContexts())
+	}
 	props["C12"] = func(tier string, seed uint64, out *Out) {
 		if os.Getenv("VERIF_SHARD") == "" {
 			runBatchProp("C12", tier, seed, out)
@@ -674,6 +678,13 @@ func runBatchCase(c *bCase) (obs bObs) {
 	run.mu.Unlock()
 	obs.ords = make([][]int, len(c.rounds))
 	var qs, mps []string
+	if len(run.qlog)%2 == 0 {
+		// (the run is over.) In half of the cases the regions have meanwhile been replaced in the
+		// location cache: what a multi shows the server for a slice it was handed does not depend on it
+		for _, ri := range run.infos {
+			ri.RegionInfo.MarkDead()
+		}
+	}
 	for _, rec := range run.qlog {
 		qs = append(qs, fmt.Sprintf("%d:%d:%s", rec.round, rec.srv, dotInts(rec.ids)))
 		if rec.round < len(obs.ords) {
@@ -1470,6 +1481,23 @@ func runBatchProp(prop, tier string, seed uint64, out *Out) {
 			genRandom(rng, 30000, 4, true, &cases)
 		} else {
 			genRandom(rng, 300000, 5, true, &cases)
+		}
+	} else if prop == "C13" {
+		// C13 at the SendBatch level: a call whose own context ends (before the batch, during the
+		// wait, while its region is located) is reported failed — its slot and allOK agree
+		genOwnCtx(&cases)
+		genOwnLocate(&cases)
+		genCancels(&cases, rng, 400)
+	} else if prop == "C02" {
+		// C02 at the SendBatch level: the slot of a call carries that call's own answer, also when
+		// other calls of the batch are retried or cannot be located in a retry round
+		genExhaustiveScripts(2, 3, &cases)
+		genLocate(&cases)
+		genOwnLocate(&cases)
+		if quick {
+			genRandom(rng, 3000, 4, true, &cases)
+		} else {
+			genRandom(rng, 60000, 5, true, &cases)
 		}
 	} else {
 		genInvalid(5, &cases)
